@@ -104,7 +104,7 @@ def make_jobs(ctx, recs, wrecs):
 def run(ctx):
     proof = common.proof_stage(ctx)
     common.build_rocfl_release()
-    ok, log = common.coq_make(["theories/Corr/CheckCommit.vo"])
+    ok, log = common.coq_make(["theories/Corr/CheckCommit.vo", "theories/Corr/CheckCommitUp.vo"])
     if not ok:
         raise common.BuildError("Corr/CheckCommit.v does not build:\n" + log[-3000:])
     env = st.rocfl_env(os.path.join(ctx.tmp, "home"))
